@@ -1,4 +1,5 @@
 import I2N.Lemmas.TunnelEnds
+import I2N.Lemmas.TunnelExamples
 /-!
 # C19 — Tunnel end point parameters mirror each other
 
@@ -318,5 +319,177 @@ theorem right_is_counterpart {ll lr lp rl rr rp l2 r2 p2 : SDict}
     · rcases hp with rfl | rfl
       · exact absurd rfl hn2
       · exact absurd rfl hn1
+
+/-- **Unsupported types are rejected** — for *every* string outside the documented sets, in any of the four
+positions, whatever else is configured: no tunnel is ever produced. -/
+theorem rejects_unsupported
+    (hbad : (∃ lt, local1.get? "type" = some lt ∧ lt ∉ ["nic", "internetip", "custom"]) ∨
+            (∃ rt, remote1.get? "type" = some rt ∧ rt ∉ ["custom", "externalip", "modeconfig"]) ∨
+            (∃ pt, peer1.get? "type" = some pt ∧ pt ∉ ["ip", "dynip"]) ∨
+            (∃ a ty, auth = some a ∧ a.get? "type" = some ty ∧ ty ∉ ["pubkey", "psk"])) :
+    ∀ t, tunnelParams name node1 node2 local1 remote1 peer1 auth ≠ .ok t := by
+  intro t h
+  obtain ⟨b⟩ := tunnelParams_ok h
+  rcases hbad with ⟨lt, hlt, hb⟩ | ⟨rt, hrt, hb⟩ | ⟨pt, hpt, hb⟩ | ⟨a, ty, ha, hty, hb⟩
+  · have := localPart_unsupported (name := name) (node1 := node1) (node2 := node2) hlt hb
+    rw [b.h1] at this; cases this
+  · have := remotePart_unsupported (name := name) (node1 := node1) (node2 := node2) (local1 := local1) hrt hb
+    rw [b.h2] at this; cases this
+  · have := peerPart_unsupported (name := name) (node1 := node1) (node2 := node2) (peer2 := b.peer2) hpt hb
+    rw [b.h3] at this; cases this
+  · have := authPart_unsupported (name := name) (n1 := node1.name) (n2 := node2.name) hty hb
+    rw [← ha, b.h4] at this; cases this
+
+/-- … and the rejection is a `ValueError` as soon as the statements executed before the type test do not fail
+for another reason (a key missing from one of the dictionaries is a `KeyError`, a missing nic role a
+`ParamNotFound`): the tests are reached in the order local, remote, peer, auth. -/
+theorem rejects_unsupported_valueError {l2 r2 p2 : SDict}
+    (hv : peerVariant local1 remote1 peer1 = .ok (l2, r2, p2)) :
+    (∀ lt, local1.get? "type" = some lt → lt ∉ ["nic", "internetip", "custom"] →
+      tunnelParams name node1 node2 local1 remote1 peer1 auth = .error .valueError) ∧
+    (∀ x rt, localPart name node1 node2 local1 = .ok x →
+      remote1.get? "type" = some rt → rt ∉ ["custom", "externalip", "modeconfig"] →
+      tunnelParams name node1 node2 local1 remote1 peer1 auth = .error .valueError) ∧
+    (∀ x y pt, localPart name node1 node2 local1 = .ok x → remotePart name node1 node2 local1 remote1 = .ok y →
+      peer1.get? "type" = some pt → pt ∉ ["ip", "dynip"] →
+      tunnelParams name node1 node2 local1 remote1 peer1 auth = .error .valueError) ∧
+    (∀ x y z a ty, localPart name node1 node2 local1 = .ok x → remotePart name node1 node2 local1 remote1 = .ok y →
+      peerPart name node1 node2 peer1 p2 = .ok z → auth = some a → a.get? "type" = some ty →
+      ty ∉ ["pubkey", "psk"] →
+      tunnelParams name node1 node2 local1 remote1 peer1 auth = .error .valueError) := by
+  obtain ⟨lt, rt, pt, h1, h2, h3, w1, w2, _⟩ := variant_types hv
+  obtain ⟨a0, h0⟩ := mainPart_total (name := name) (n1 := node1.name) (n2 := node2.name) h1 w1 h2 w2
+  refine ⟨?_, ?_, ?_, ?_⟩
+  · intro lt' hlt hb
+    have := localPart_unsupported (name := name) (node1 := node1) (node2 := node2) hlt hb
+    simp [tunnelParams, tunnelAssignments, hv, h0, this, bind, Except.bind]
+  · intro x rt' hx hrt hb
+    have := remotePart_unsupported (name := name) (node1 := node1) (node2 := node2) (local1 := local1) hrt hb
+    simp [tunnelParams, tunnelAssignments, hv, h0, hx, this, bind, Except.bind]
+  · intro x y pt' hx hy hpt hb
+    have := peerPart_unsupported (name := name) (node1 := node1) (node2 := node2) (peer2 := p2) hpt hb
+    simp [tunnelParams, tunnelAssignments, hv, h0, hx, hy, this, bind, Except.bind]
+  · intro x y z a ty hx hy hz ha hty hb
+    have := authPart_unsupported (name := name) (n1 := node1.name) (n2 := node2.name) hty hb
+    subst ha
+    simp [tunnelParams, tunnelAssignments, hv, h0, hx, hy, hz, this, bind, Except.bind]
+
+/-! ## `connects_nodes` -/
+
+/-- Whenever both argument orders give an answer, the answers agree (for every tunnel, every pair of nodes). -/
+theorem connects_agree_when_both_answer (t : Tunnel) (a b : Node) (x y : Bool)
+    (h1 : t.connects a b = .ok x) (h2 : t.connects b a = .ok y) : x = y := by
+  unfold Tunnel.connects at h1 h2
+  revert h1 h2
+  rcases t.onLeft a with e | (_ | _) <;> rcases t.onRight b with e | (_ | _) <;>
+    rcases t.onRight a with e | (_ | _) <;> rcases t.onLeft b with e | (_ | _) <;>
+    simp [connectsOf, andThen, bind, Except.bind, pure, Except.pure] <;>
+    (intro h1 h2; rw [h1, h2])
+
+/-- `connects_comm`, PARTIAL: the answer does not depend on the order of the two nodes provided none of the four
+side tests raises (decidable hypothesis).  Without it the statement is false for the code as it is: a side test on a
+`CUSTOM` side raises `IndexError` for a node owning an interface inside the custom network with another netmask, and
+`A and B` evaluates it in one order only (`connects_order_witness`). -/
+theorem connects_comm_partial (t : Tunnel) (a b : Node)
+    (h : (isOk (t.onLeft a) && isOk (t.onRight b) && isOk (t.onRight a) && isOk (t.onLeft b)) = true) :
+    t.connects a b = t.connects b a := by
+  unfold Tunnel.connects
+  revert h
+  rcases t.onLeft a with e | (_ | _) <;> rcases t.onRight b with e | (_ | _) <;>
+    rcases t.onRight a with e | (_ | _) <;> rcases t.onLeft b with e | (_ | _) <;>
+    simp [isOk, connectsOf, andThen, bind, Except.bind, pure, Except.pure]
+
+/-- the failing shape: left test of the first node and right test of the second succeed, the left test of the
+second node raises — one order answers `True`, the other raises -/
+theorem connects_order_witness (r1 : Except Err Bool) :
+    connectsOf (.ok true) (.ok true) r1 (.error .indexError) = .ok true ∧
+    connectsOf (.error .indexError) r1 (.ok true) (.ok true) = .error .indexError := by
+  constructor <;> rfl
+
+/-- **`connects_comm` for every tunnel whose left local type is not `custom`**: then neither side is `CUSTOM`, no
+side test can raise, and the answer is independent of the order of the two nodes — all node pairs, all networks. -/
+theorem connects_comm_noncustom (h : tunnelParams name node1 node2 local1 remote1 peer1 auth = .ok t)
+    (wf : WF name node1 node2) (hl : local1.get? "type" ≠ some "custom") (a b : Node) :
+    t.connects a b = t.connects b a := by
+  obtain ⟨lt, rt, pt, hlt, hrt, _, hlv, hrv, _, hL, _, _, hR, _⟩ := right_is_counterpart_generated h wf
+  have hlc : lt ≠ "custom" := fun hc => hl (by rw [hlt, hc])
+  have hLx : upper lt ≠ "CUSTOM" := by
+    simp only [List.mem_cons, List.not_mem_nil, or_false] at hlv
+    rcases hlv with rfl | rfl | rfl <;> simp [upper] at hlc ⊢
+  have hRx : upper (counterLocal lt rt) ≠ "CUSTOM" := by
+    simp only [List.mem_cons, List.not_mem_nil, or_false] at hrv
+    rcases hrv with rfl | rfl | rfl <;> simp [counterLocal, hlc, upper]
+  apply connects_comm_partial
+  have l := fun n => onSide_ok_of_not_custom t.left t.leftNet t.leftParams n _ hL hLx
+  have r := fun n => onSide_ok_of_not_custom t.right t.rightNet t.rightParams n _ hR hRx
+  simp only [Tunnel.onLeft, Tunnel.onRight, l, r, Bool.and_self]
+
+/-! ## Non-vacuity: concrete instances (evaluated by the kernel) on which the hypotheses hold and the conclusions
+are non-trivial; and the witnesses of the two statements that are false for the code as it is. -/
+
+/-- site-to-site default tunnel: hypotheses of `lan_is_own_net`, `left_remote_is_right_net`,
+`right_remote_is_left_net_partial`, `lan_remote_mirror_partial`, `lan_remote_mirror_right_to_left`,
+`peers_point_at_each_other`, `right_is_counterpart_generated`, `connects_comm_noncustom` hold, and all four networks
+are defined and different -/
+example : ∃ t, tunnelParams "vpn1" Ex.vm1 Ex.vm2 defaultLocal defaultRemote defaultPeer none = .ok t ∧
+    WF "vpn1" Ex.vm1 Ex.vm2 ∧ defaultLocal.get? "type" ≠ some "custom" ∧
+    t.L "vpnconn_lan_net" = some "172.17.0.0" ∧ t.R "vpnconn_remote_net" = some "172.17.0.0" ∧
+    t.R "vpnconn_lan_net" = some "172.18.0.0" ∧ t.L "vpnconn_remote_net" = some "172.18.0.0" ∧
+    t.L "vpnconn_peer_ip" = some "10.2.0.1" ∧ t.R "vpnconn_peer_ip" = some "10.1.0.1" ∧
+    t.L "vpnconn_lan_type" = some "NIC" ∧ t.R "vpnconn_remote_type" = some "CUSTOM" :=
+  ⟨_, rfl, Ex.wf, by decide, by decide, by decide, by decide, by decide, by decide, by decide, by decide, by decide⟩
+
+/-- WITNESS that `lan_remote_mirror` is false without the hypothesis of `lan_remote_mirror_partial`
+(hypotheses of `custom_local_right_remote_absent`): left local `custom` — the left end has lan net 10.0.0.0, the
+right end has remote type CUSTOM and no remote net -/
+example : ∃ t, tunnelParams "vpn1" Ex.vm1 Ex.vm2 Ex.customLocal defaultRemote defaultPeer none = .ok t ∧
+    WF "vpn1" Ex.vm1 Ex.vm2 ∧ Ex.customLocal.get? "type" = some "custom" ∧
+    t.L "vpnconn_lan_net" = some "10.0.0.0" ∧ t.R "vpnconn_remote_type" = some "CUSTOM" ∧
+    t.R "vpnconn_remote_net" = none ∧ t.L "vpnconn_lan_net" ≠ t.R "vpnconn_remote_net" :=
+  ⟨_, rfl, Ex.wf, by decide, by decide, by decide, by decide, by decide⟩
+
+/-- point-to-point road warrior with psk: hypotheses of `psk_ids_swapped` and the `dynip` branch of
+`peers_point_at_each_other`; points have no networks -/
+example : ∃ t, tunnelParams "vpn1" Ex.vm1 Ex.vm2 [("type", "internetip")] [("type", "externalip")]
+      [("type", "dynip"), ("nic", "internet_nic")] (some Ex.pskAuth) = .ok t ∧
+    Ex.pskAuth.get? "type" = some "psk" ∧
+    t.L "vpnconn_psk_own_id" = some "arnold@vm1" ∧ t.R "vpnconn_psk_foreign_id" = some "arnold@vm1" ∧
+    t.R "vpnconn_psk_own_id" = some "" ∧ t.L "vpnconn_psk_foreign_id_type" = some "IP" ∧
+    t.R "vpnconn_psk_foreign_id_type" = some "CUSTOM" ∧
+    t.L "vpnconn_peer_ip" = none ∧ t.L "vpnconn_activation" = some "PASSIVE" ∧
+    t.L "vpnconn_lan_net" = none ∧ t.R "vpnconn_lan_net" = none ∧ t.leftNet = none :=
+  ⟨_, rfl, by decide, by decide, by decide, by decide, by decide, by decide, by decide, by decide, by decide,
+    by decide, by decide⟩
+
+/-- `right_is_counterpart`: both applications succeed on the default (site-to-site) triple and on the
+point-to-site triple, and give the left triple back -/
+example : ∃ rl rr rp, peerVariant defaultLocal defaultRemote defaultPeer = .ok (rl, rr, rp) ∧
+    peerVariant rl rr rp = .ok (defaultLocal, defaultRemote, defaultPeer) := ⟨_, _, _, rfl, rfl⟩
+example : ∃ rl rr rp, peerVariant [("type", "internetip")] defaultRemote defaultPeer = .ok (rl, rr, rp) ∧
+    rl.get? "type" = some "nic" ∧ rr.get? "type" = some "externalip" ∧
+    peerVariant rl rr rp = .ok ([("type", "internetip")], defaultRemote, defaultPeer) :=
+  ⟨_, _, _, rfl, by decide, by decide, rfl⟩
+/-- … while for an "exotic" left triple (`modeconfig`) the derived right triple is not even an admissible input of
+`_get_peer_variant` (its `nic` local has no `nic` key): the hypothesis `hv2` of `right_is_counterpart` is needed -/
+example : ∃ rl rr rp, peerVariant defaultLocal [("type", "modeconfig"), ("modeconfig_ip", "172.30.0.1")] defaultPeer
+      = .ok (rl, rr, rp) ∧ peerVariant rl rr rp = .error .keyError := ⟨_, _, _, rfl, rfl⟩
+
+/-- `rejects_unsupported` / `rejects_unsupported_valueError`: an unknown local type with everything else in place -/
+example : tunnelParams "vpn1" Ex.vm1 Ex.vm2 [("type", "lan"), ("nic", "lan_nic")] defaultRemote defaultPeer none
+    = .error .valueError := rfl
+example : ∃ pv, peerVariant [("type", "lan"), ("nic", "lan_nic")] defaultRemote defaultPeer = .ok pv := ⟨_, rfl⟩
+/-- the documented authentication type `"none"` is one of the rejected strings (only `auth=None` selects NONE) -/
+example : tunnelParams "vpn1" Ex.vm1 Ex.vm2 defaultLocal defaultRemote defaultPeer (some [("type", "none")])
+    = .error .valueError := rfl
+/-- a missing key is a `KeyError`, not a `ValueError`: `{"type": "nic"}` without `nic` (although the docstring asks
+for "at least one key 'type'") -/
+example : tunnelParams "vpn1" Ex.vm1 Ex.vm2 [("type", "nic")] defaultRemote defaultPeer none = .error .keyError := rfl
+
+/-- `connects_comm_partial` / `connects_agree_when_both_answer`: the end nodes of the default tunnel are connected
+in both orders, and the four side tests do not raise -/
+example : ∃ t, tunnelParams "vpn1" Ex.vm1 Ex.vm2 defaultLocal defaultRemote defaultPeer none = .ok t ∧
+    (isOk (t.onLeft Ex.vm1) && isOk (t.onRight Ex.vm2) && isOk (t.onRight Ex.vm1) && isOk (t.onLeft Ex.vm2)) = true ∧
+    isOk (t.connects Ex.vm1 Ex.vm2) = true ∧ isOk (t.connects Ex.vm2 Ex.vm1) = true :=
+  ⟨_, rfl, by decide, by decide, by decide⟩
 
 end I2N.Props.C19
